@@ -214,7 +214,10 @@ def transitions(rep, prog, ws, tag):
         okty = rt["args"][0]["t"]
         if not okty.startswith("protected::Protected<") or "std::io::Error" not in rt["t"]:
             continue
-        unit = prog.unit(f)
+        # the transition with its private helpers and closures folded in (wrappers stay calls; a wrapper
+        # handed over as a function pointer / item is called directly in the view)
+        fv = inline(prog, f, keep=(lambda g_: g_.key in ws,))
+        unit = [fv] + [u for u in prog.unit(f) if u.key != f.key and u.path not in set(getattr(fv, "inlined", []))]
         direct = []
         for g in unit:
             for c in g.calls():
@@ -252,6 +255,11 @@ def transitions(rep, prog, ws, tag):
                         stores.append((bb, rv["variant"], s))
                     elif rv["k"] == "use":
                         e = expr_of_operand(g, rv["x"])
+                        # a clone of the mode value is the mode value
+                        dd = 0
+                        while e.k == "call" and e.a.name == "clone" and "Clone" in e.a.path and len(e.a.args) == 1 and dd < 4:
+                            e = call_arg_exprs(e.a)[0]
+                            dd += 1
                         if e.k == "agg" and e.b:
                             stores.append((bb, e.b, s))
                         elif e.k == "const" and e.c:
